@@ -44,3 +44,20 @@ def expand_payload(seed64, shape, kind, **kw):
     if kind == 'uniform':
         return g.uniform(kw['lo'], kw['hi'], size=shape).astype(kw.get('dtype', 'float64'))
     raise ValueError(kind)
+
+
+LAYOUTS = ['C', 'C', 'F', 'strided', 'negstride']
+
+
+def relayout(arr, kind):
+    """an array equal to ``arr`` (same shape, dtype, values) with another memory layout"""
+    arr = np.asarray(arr)
+    if kind == 'F':
+        return np.asfortranarray(arr)
+    if kind == 'strided' and arr.ndim >= 1 and arr.size:
+        big = np.zeros(arr.shape[:-1] + (2 * arr.shape[-1],), dtype=arr.dtype)
+        big[..., ::2] = arr
+        return big[..., ::2]
+    if kind == 'negstride' and arr.ndim >= 1:
+        return arr[::-1].copy()[::-1]
+    return arr
